@@ -79,10 +79,11 @@ def checkElems : Option (Nat × Dtype) → List PyElem → Outcome (List NdArr)
 
 def natVal (n : Nat) : Val := .i (Int.ofNat n)
 
-/-- `np.asarray(encoded_values, dtype=np.uint64)`: shape `(N, ndim+1)`; `(0,)` when `N = 0` -/
+/-- `np.asarray(encoded_values, dtype=np.uint64)`: shape `(N, ndim+1)`; the empty `(0, 2)` table
+when `N = 0` (repaired: was `(0,)`) -/
 def Encoded.valuesArr (e : Encoded) : NdArr :=
   match e.rows with
-  | [] => { dtype := .u64, shape := [0], flat := [] }
+  | [] => { dtype := .u64, shape := [0, 2], flat := [] }
   | r :: _ =>
     { dtype := .u64, shape := [e.rows.length, r.2.length + 1],
       flat := e.rows.flatMap (fun row => (row.1 :: row.2).map natVal) }
